@@ -64,6 +64,8 @@ pub fn selftest_cmd(seed: u64) -> i32 {
                 schedule: vec![],
                 scheduler: "none".into(),
                 tail: vec![crate::exec::Tail::Encode],
+                exec: None,
+                info: None,
             };
             let res = crate::exec::run(&sc);
             if let Some(e) = &res.parse_err {
